@@ -1,6 +1,6 @@
 (* Proofs/TablesFacts.v — facts about the constructor-time tables of Model/Lattice.v (C02):
    vectors, coordination numbers, edge neighbours, adjacency matrix. *)
-From Coq Require Import List ZArith Bool Arith Lia ZifyBool Permutation.
+From Coq Require Import List ZArith Bool Arith Lia ZifyBool Permutation Sorted.
 From Koala Require Import Model.Lattice.
 Import ListNotations.
 
@@ -43,4 +43,77 @@ Proof.
   intros L. unfold coordination. split. now rewrite map_length, seq_length.
   intros v Hv. rewrite nth_indep with (d' := count_ends L 0%nat) by now rewrite map_length, seq_length.
   rewrite map_nth, seq_nth by assumption. apply count_ends_spec.
+Qed.
+
+(* ---------- edge neighbours ---------- *)
+Lemma edge_neighbours_in : forall L e f,
+  In f (edge_neighbours L e) <->
+  (f < nE L)%nat /\ f <> e /\ share_vertex (edge_at L e) (edge_at L f) = true.
+Proof.
+  intros L e f. unfold edge_neighbours. rewrite filter_In, in_seq.
+  rewrite andb_true_iff, negb_true_iff, Nat.eqb_neq. intuition lia.
+Qed.
+
+Lemma filter_seq_sorted : forall (p : nat -> bool) n s,
+  StronglySorted lt (filter p (seq s n)).
+Proof.
+  intros p n. induction n as [|n IH]; intros s; simpl. constructor.
+  destruct (p s). 2: apply IH.
+  constructor. apply IH.
+  apply Forall_forall. intros x Hx. apply filter_In in Hx. destruct Hx as [Hx _].
+  apply in_seq in Hx. lia.
+Qed.
+
+Lemma edge_neighbours_sorted : forall L e, StronglySorted lt (edge_neighbours L e).
+Proof. intros. apply filter_seq_sorted. Qed.
+
+Lemma edge_neighbours_nodup : forall L e, NoDup (edge_neighbours L e).
+Proof. intros. apply NoDup_filter, seq_NoDup. Qed.
+
+Lemma share_vertex_spec : forall a b,
+  share_vertex a b = true <->
+  (fst a = fst b \/ fst a = snd b \/ snd a = fst b \/ snd a = snd b).
+Proof.
+  intros a b. unfold share_vertex. rewrite !orb_true_iff, !Nat.eqb_eq. tauto.
+Qed.
+
+Lemma edge_neighbours_exact_lemma : forall L e,
+  (forall f, In f (edge_neighbours L e) <->
+     (f < nE L)%nat /\ f <> e /\
+     (fst (edge_at L e) = fst (edge_at L f) \/ fst (edge_at L e) = snd (edge_at L f) \/
+      snd (edge_at L e) = fst (edge_at L f) \/ snd (edge_at L e) = snd (edge_at L f)))
+  /\ NoDup (edge_neighbours L e) /\ StronglySorted lt (edge_neighbours L e).
+Proof.
+  intros L e. split; [|split]. 
+  - intros f. rewrite edge_neighbours_in, share_vertex_spec. tauto.
+  - apply edge_neighbours_nodup.
+  - apply edge_neighbours_sorted.
+Qed.
+
+(* ---------- adjacency matrix ---------- *)
+Lemma adjacency_true_spec : forall L i j,
+  adjacency_true L i j = true <-> (In (i, j) (edges L) \/ In (j, i) (edges L)).
+Proof.
+  intros L i j. unfold adjacency_true. rewrite existsb_exists. split.
+  - intros [[a b] [Hin H]]. simpl in H.
+    rewrite orb_true_iff, !andb_true_iff, !Nat.eqb_eq in H.
+    destruct H as [[-> ->]|[-> ->]]; auto.
+  - intros [H|H]; [exists (i, j)|exists (j, i)]; (split; [assumption|]); simpl;
+      rewrite !Nat.eqb_refl; simpl; auto using orb_true_r.
+Qed.
+
+Lemma adjacency_sym_exact_lemma : forall L i j,
+  adjacency_true L i j = adjacency_true L j i /\
+  (adjacency_true L i j = true <-> (In (i, j) (edges L) \/ In (j, i) (edges L))).
+Proof.
+  intros L i j. split. 2: apply adjacency_true_spec.
+  apply eq_true_iff_eq. rewrite !adjacency_true_spec. tauto.
+Qed.
+
+(* the bincount-without-minlength version (as coded before fix 6a0729e) is NOT one entry per vertex *)
+Lemma coordination_bincount_short :
+  exists L v, wf_lattice L = true /\ (v < nV L)%nat /\ nth_error (coordination_bincount L) v = None.
+Proof.
+  exists (mkLattice 1 [(0,0);(4,0);(2,3);(3,1)]%Z [(0,1);(1,2);(2,0)]%nat [(0,0);(0,0);(0,0)]%Z), 3%nat.
+  vm_compute. repeat split; auto.
 Qed.
